@@ -66,3 +66,17 @@ Definition map_values {V W} (g : V -> W) (l : list (nat * V)) : list (nat * W) :
    to read the value that was searched for) *)
 Definition find_value (x : nat) (l : list (nat * nat)) : option nat :=
   option_map snd (find (fun kv => Nat.eqb (snd kv) x) l).
+
+(* `.keys().copied().min()` (lib.rs prql_to_tokens: the smallest source id) *)
+Fixpoint min_of (l : list nat) : option nat :=
+  match l with
+  | [] => None
+  | x :: l' => match min_of l' with None => Some x | Some m => Some (Nat.min x m) end
+  end.
+
+(* `.sorted_by(|a, b| (a.order, a.name).cmp(&(b.order, b.name)))` (resolver/expr.rs construct_tuple_from_module since
+   987d30b): entries are (order, name, payload), compared lexicographically by order and then by name; the names are
+   the keys of the HashMap, hence pairwise distinct (a name stands for its rank in the string order) *)
+Definition order_name_leb {V} (a b : nat * nat * V) : bool :=
+  Nat.ltb (fst (fst a)) (fst (fst b))
+  || (Nat.eqb (fst (fst a)) (fst (fst b)) && Nat.leb (snd (fst a)) (snd (fst b))).
